@@ -140,6 +140,18 @@ func (fx *fnExec) anchorAsserts(st *state, in ssa.Instruction, extra map[string]
 		c := &specCtx{fx: fx, cur: st, old: fx.entry, names: fx.params, locals: fx.localLookup(st, in.Block()), pkg: fx.pkg}
 		c = c.with(extra)
 		c.locals = fx.localLookup(st, in.Block())
+		if ci, isCall := in.(ssa.CallInstruction); isCall {
+			c.ssaArgs = map[string]ssa.Value{}
+			cc := ci.Common()
+			var as []ssa.Value
+			if cc.IsInvoke() {
+				as = append(as, cc.Value)
+			}
+			as = append(as, cc.Args...)
+			for i, av := range as {
+				c.ssaArgs[fmt.Sprintf("arg%d", i)] = av
+			}
+		}
 		v, ok := fx.tryEval(c, a.Expr, "assert ["+a.Label+"]")
 		if !ok {
 			continue
@@ -273,6 +285,7 @@ func (fx *fnExec) newRef(st *state) string {
 }
 
 func (fx *fnExec) execInstr(st *state, in ssa.Instruction) {
+	fx.curState = st
 	switch x := in.(type) {
 	case *ssa.DebugRef:
 		return
